@@ -232,10 +232,11 @@ func (d *API) validate() error {
 		definedAuths = append(definedAuths, k)
 	}
 
-	if err := d.verify("consumes", consumes, d.analyzer.RequiredConsumes()); err != nil {
+	// media types are registered in lower case: the types the description requires are compared in lower case too
+	if err := d.verify("consumes", consumes, lowerCased(d.analyzer.RequiredConsumes())); err != nil {
 		return err
 	}
-	if err := d.verify("produces", produces, d.analyzer.RequiredProduces()); err != nil {
+	if err := d.verify("produces", produces, lowerCased(d.analyzer.RequiredProduces())); err != nil {
 		return err
 	}
 	if err := d.verify("operation", operations, d.analyzer.OperationMethodPaths()); err != nil {
@@ -250,6 +251,14 @@ func (d *API) validate() error {
 		return err
 	}
 	return nil
+}
+
+func lowerCased(in []string) []string {
+	out := make([]string, len(in))
+	for i, v := range in {
+		out[i] = strings.ToLower(v)
+	}
+	return out
 }
 
 func (d *API) verify(name string, registrations []string, expectations []string) error {
